@@ -189,6 +189,14 @@ def run_impl(sc, w: World) -> Dict[str, Any]:
     try:
         ds = cl[sc["backend"]](files, **kw)
         stage = "execute"
+        # the dataset is what it was given WHEN IT WAS MADE: what the caller does to its own list afterwards is not the dataset's
+        if isinstance(files, list) and sc.get("mutate_after"):
+            if sc["mutate_after"] == "clear":
+                files.clear()
+            elif sc["mutate_after"] == "append_missing":
+                files.append(type(files[0])(str(w.base / "no-such-dir" / "late.root")) if files else str(w.base / "late.root"))
+            else:
+                files.reverse()
         # extract_metadata lists the outermost MetaData first: attach in reverse so that
         # process_metadata sees sc["mds"] in order
         for m in reversed(sc["mds"]):
@@ -471,6 +479,7 @@ def gen_scenario(rng: random.Random) -> Dict[str, Any]:
     if rng.random() < 0.05:
         mds.insert(rng.randint(0, len(mds)), ["bad"])
     return {
+        "mutate_after": rng.choice(["clear", "append_missing", "reverse"]) if (argtype in ("strs", "paths", "mixed") and rng.random() < 0.3) else None,
         "backend": backend, "files": files, "style": style, "argtype": argtype,
         "image": rng.choice(IMAGES) if rng.random() < 0.4 else None,
         "outdir": rng.choice([None] * 5 + ["out"] * 4 + ["missing"]),
